@@ -449,7 +449,7 @@ func (s *FlowStats) MarshalBinary() (data []byte, err error) {
 	binary.BigEndian.PutUint16(data[n:], s.Flags)
 	n += 2
 	copy(data[n:], s.pad2)
-	n += len(s.pad2)
+	n += 4 // pad2
 	binary.BigEndian.PutUint64(data[n:], s.Cookie)
 	n += 8
 	binary.BigEndian.PutUint64(data[n:], s.PacketCount)
